@@ -226,6 +226,19 @@ Proof.
 Qed.
 Print Assumptions no_class_level_writes.
 
+(* ... and the tie to the implementation: every MEASURED footprint the harness
+   accepts (fp_agrees: the before/after and intermediate snapshots of a real
+   invocation, every write classified by its owner) contains no write to a
+   cell owned by a class or module other than Factory.cache entries, and no
+   write to a cell of a Binding. *)
+Theorem measured_footprint_no_class_level :
+  forall x, fp_agrees x = true ->
+  forall w, In w (fc_writes x ++ fc_transient x) ->
+    (class_owned (ow_loc w) = true -> exists key, ow_loc w = LFactory key)
+    /\ binding_owned (ow_loc w) = false.
+Proof. exact measured_footprint_owned_l. Qed.
+Print Assumptions measured_footprint_no_class_level.
+
 (* No per-binding state.  Binding objects are shared by all methods of a
    service (wsdl.py: Definitions.add_methods) and by all threads; the
    marshaller, unmarshaller, MultiRef resolver and SOAP client objects are
